@@ -439,6 +439,44 @@ def layout_data(layout, rep, rng):
         ps = up(5)
         ps = [ps[0], ps[1], ps[4], ps[2], ps[3]]
         return {"pressure": ps, "loading": load(ps), "branch": "ads", "extra": {}}
+    if layout == "zero_start":
+        # the adsorption branch starts in vacuum: first point (0.0, 0.0); rep 1 adds a desorption branch
+        a = [0.0] + up(4, 0.1, 0.9)
+        la = [0.0] + load(a[1:])
+        if rep % 2:
+            d = list(reversed(up(3, 0.2, 0.7)))
+            return {"pressure": a + d, "loading": la + [x + 0.2 for x in load(d)], "branch": "guess", "extra": {}}
+        return {"pressure": a, "loading": la, "branch": "guess", "extra": {}}
+    if layout == "zero_mid":
+        # a desorption scan down to vacuum followed by further points: pressure exactly 0.0 in the middle
+        a = up(4, 0.1, 0.9)
+        d = [0.5 + jit(), 0.0, 0.05 + jit(), 0.02 + jit()]
+        return {"pressure": a + d, "loading": load(a) + [2.7, 0.4 + jit(), 0.9, 0.6], "branch": "guess", "extra": {}}
+    if layout == "zero_end":
+        # the desorption branch ends in vacuum: last point at pressure exactly 0.0 (rep 1: with residual loading)
+        a = up(4, 0.1, 0.9)
+        d = [0.5 + jit(), 0.2 + jit(), 0.0]
+        return {"pressure": a + d, "loading": load(a) + [3.1, 1.9, [0.0, 0.31415926535][rep % 2]], "branch": "guess", "extra": {}}
+    if layout == "zero_loading":
+        # loading exactly 0.0 at non-zero pressure, on both branches
+        a = up(4, 0.1, 0.9)
+        d = [0.5 + jit(), 0.2 + jit()]
+        la = load(a)
+        la[0] = 0.0
+        return {"pressure": a + d, "loading": la + [2.2, 0.0], "branch": "guess", "extra": {}}
+    if layout == "extra_zero":
+        # extra numeric columns holding 0.0 / 0 at the start, in the middle and at the end, both branches
+        a = up(4, 0.1, 0.9)
+        d = list(reversed(up(3, 0.2, 0.7)))
+        ps = a + d
+        return {"pressure": ps, "loading": load(a) + [x + 0.1 for x in load(d)], "branch": "guess",
+                "extra": {"enthalpy": [0.0, 12.3456789012, 0.0, 9.87654321, 8.5, 0.0, 0.0], "cycle": [0, 1, 0, 2, 2, 0, 3]}}
+    if layout == "extra_text_empty":
+        # an extra text column with empty cells
+        a = up(3, 0.1, 0.9)
+        d = list(reversed(up(2, 0.2, 0.7)))
+        return {"pressure": a + d, "loading": load(a) + [x + 0.1 for x in load(d)], "branch": "guess",
+                "extra": {"remark": [["", "ok", "", "check", ""], ["a", "", "b", "", "c"]][rep % 2]}}
     if layout == "many_points":
         a = up(24)
         d = list(reversed(up(12, 0.1, 0.9)))
@@ -554,6 +592,10 @@ class Builder:
         object (with everything the fit left on it) to the ModelIsotherm constructor."""
         import copy
         import pygaps
+        if fit_args.get("model") in ("DA", "DR"):
+            # these models take the isotherm temperature as a parameter: keep the genuinely fitted isotherm
+            # (wrapping a copy of the model would route the original through the same constructor path as the import)
+            return pygaps.ModelIsotherm(**fit_args, **copy.deepcopy(kw))
         if key not in self._fits:
             try:
                 # (the isotherm constructor pops 'name' out of a material dictionary: hand it a copy)
